@@ -7,6 +7,7 @@ import itertools
 import os
 import shutil
 import tempfile
+import types
 
 import geneticengine.evaluation.recorder as recmod
 from geneticengine.evaluation.recorder import CSVSearchRecorder, SearchRecorder
@@ -136,6 +137,16 @@ def units(tier, seed):
                 us.append({"nobj": nobj, "fields": fields, "extra": 1 if fields == "given" else 0, "only_best": only_best, "text": "short",
                            "L": 3 if tier == "quick" else 4, "represent": True})
     for only_best in (True, False):
+        # infinitely bad / good fitness values (the usual penalty for invalid programs) in the history
+        us.append({"nobj": 1, "fields": "default", "extra": 0, "only_best": only_best, "text": "short", "L": 3, "extreme": True})
+        us.append({"nobj": 1, "fields": "given", "extra": 1, "only_best": only_best, "text": "short", "L": 3, "extreme": True, "represent": True})
+    for nobj in (1, 2):
+        for only_best in (True, False):
+            us.append({"nobj": nobj, "fields": "given", "extra": "simplegp2", "only_best": only_best, "text": "short", "L": 4 if nobj == 1 else 3,
+                       "ephemeral": True})
+            us.append({"nobj": nobj, "fields": "given", "extra": 2, "only_best": only_best, "text": "short", "L": 4 if nobj == 1 else 3,
+                       "ephemeral": True})
+    for only_best in (True, False):
         us.append({"nobj": 1, "fields": "given", "extra": "simplegp2", "only_best": only_best, "text": "short", "L": 4, "minimize_list1": True})
     return us
 
@@ -146,7 +157,7 @@ def run_unit(unit) -> UnitResult:
     tmp = tempfile.mkdtemp(prefix="verif_c20_")
     real_open = open
     try:
-        alpha = [0, 1, 2]
+        alpha = [0, 1, 2] if not unit.get("extreme") else [float("-inf"), 0, float("inf")]
         for seq in itertools.product(alpha, repeat=L):
             for conformance in ((False, True) if seq == tuple([0, 1, 2, 1, 0][:L]) else (False,)):
                 dev = RawDevice()
@@ -243,11 +254,14 @@ def run_unit(unit) -> UnitResult:
                             bi = max(range(i + 1), key=lambda j: (seq[j], -j))
                             events.append(("again", bi))
                     expected_at = []
+                    # programs exist before the loop: inside it only Individual objects are allocated and (in ephemeral
+                    # histories) freed, so a new individual readily takes the address of the one that just died
+                    progs = [Prog(i, TEXTS[unit["text"]](i)) for i in range(len(seq))]
                     for e, (what, i) in enumerate(events):
                         f = seq[i]
                         if what == "new":
                             table[i] = f
-                            inds_by_i[i] = Individual(Prog(i, TEXTS[unit["text"]](i)), rep)
+                            inds_by_i[i] = Individual(progs[i], rep)
                         ind = inds_by_i[i]
                         tracker.evaluate([ind])
                         r.executions += 1
@@ -262,8 +276,14 @@ def run_unit(unit) -> UnitResult:
                         if improved:
                             best_so_far = agg
                         if (not only_best_effective) or improved:
-                            expected_rows.append(ind)
+                            # (ephemeral histories keep only the program: the Individual object must be free to die)
+                            expected_rows.append(ind if not unit.get("ephemeral") else types.SimpleNamespace(genotype=ind.genotype))
                             expected_at.append(e)
+                        if unit.get("ephemeral"):
+                            # nobody but the tracker keeps a registered individual: its address can be taken by the next one
+                            flags.flags.clear()
+                            inds_by_i.pop(i, None)
+                            ind = None
                         boundaries.append(len(dev.writes))
                         content = (real_open(path, "rb").read() if conformance else dev.content())
                         why = check_image(content, unit, nobj, expected_rows, names, expect_extra, table, complete=True)
